@@ -1,4 +1,4 @@
-SPECIFICATION GSpec
+SPECIFICATION ESpec
 CONSTANTS
   Peers <- GPeers
   Boots <- GBoots
